@@ -11,6 +11,9 @@ TARGETS = [
     # one request message shared by a unary, a server-streaming, a client-streaming and a bidirectional rpc: its comment is
     # rendered into the "request (...)" / "requests (Iterator[...])" entry of each of the four method docstrings of both clients
     ("stream_request", [4, 2]),
+    # a long-running rpc: the comment of its RESULT message is rendered into the Returns: section of the method docstrings of both
+    # clients (its metadata message only into its own class); a paged rpc: the comment of its response message likewise
+    ("lro_result", [4, 4]), ("lro_metadata", [4, 5]), ("paged_response", [4, 7]),
 ]
 STREAM_METHODS = {"run_query": "unary", "watch_queries": "server-streaming", "upload_queries": "client-streaming", "chat_queries": "bidirectional"}
 
@@ -23,7 +26,11 @@ BENIGN = {
     "service": "Keeps things.",
     "method": "Fetches a thing. Fails with NOT FOUND when there is none:\n the caller should then create it.",
     "stream_request": "The query to run, with its dialect; sent once, or as a stream of queries that the server answers in order.",
+    "lro_result": "What an import produced: the number of things read and the names of those rejected.",
+    "lro_metadata": "Progress of a running import.",
+    "paged_response": "One page of things, with the token of the next page.",
 }
+BRACES = "docstring.braces_in_comment"
 
 # hazard class -> comment texts
 HAZARDS = {
@@ -31,6 +38,8 @@ HAZARDS = {
     "docstring.trailing_backslash": ["Windows path C:\\", "Ends with three backslashes \\\\\\", "line one\nline two \\", "Ends with a backslash \\",
                                      "two \\\\", "four " + "\\" * 4, "five " + "\\" * 5, "six " + "\\" * 6, "several lines\nthen three \\\\\\", "several lines\nthen five " + "\\" * 5],
     "docstring.backslash_escape": ["Path C:\\users\\xavier", "Matches \\d+ and \\N{x", "Use \\u for unicode", "A newline is written \\n here"],
+    BRACES: ["Use {ident} here, an empty {} pair, a set {{x}} literal, projects/{project}/things/{thing}, a lone { brace and a closing } one.",
+             "The {ident} of the thing.", "An empty {} pair.", "A set {{x}} literal.", "Named projects/{project}/things/{thing}.", "A lone { brace.", "closing } only", "{0} and {doc}"],
     "docstring.quote_at_end": ['He said "hello"', "it's", "a 'single' one'", 'two ""'],
 }
 
@@ -57,6 +66,19 @@ def build(comments, ads=False):
     svc.rpc("WatchQueries", q.fqn, thing.fqn, ss=True, http=("post", "/v1/queries:watch"), body="*")
     svc.rpc("UploadQueries", q.fqn, thing.fqn, cs=True, http=("post", "/v1/queries:upload"), body="*")
     svc.rpc("ChatQueries", q.fqn, thing.fqn, cs=True, ss=True, http=("post", "/v1/queries:chat"), body="*")
+    f.dep("google/longrunning/operations.proto")
+    ireq = f.message("ImportThingsRequest")
+    ireq.field("parent", 1, "string")
+    ires = f.message("ImportResult")
+    ires.field("read", 1, "int32").field("rejected", 2, "string", repeated=True)
+    imeta = f.message("ImportMetadata")
+    imeta.field("progress", 1, "int32")
+    svc.rpc("ImportThings", ireq.fqn, ".google.longrunning.Operation", http=("post", "/v1/things:import"), body="*", lro=("ImportResult", "ImportMetadata"))
+    lreq = f.message("ListThingsRequest")
+    lreq.field("page_size", 1, "int32").field("page_token", 2, "string")
+    lres = f.message("ListThingsResponse")
+    lres.field("things", 1, thing.fqn, repeated=True).field("next_page_token", 2, "string")
+    svc.rpc("ListThings", lreq.fqn, lres.fqn, http=("get", "/v1/things"))
     for tgt, path in TARGETS:
         c = comments.get(tgt)
         if c is None:
@@ -139,6 +161,8 @@ def docstrings(files):
                     out["request"].append(d)
                 elif n.name == "Query":
                     out["stream_request"].append(d)
+                elif n.name in ("ImportResult", "ImportMetadata", "ListThingsResponse"):
+                    out[{"ImportResult": "lro_result", "ImportMetadata": "lro_metadata", "ListThingsResponse": "paged_response"}[n.name]].append(d)
                 elif n.name == "Kind":
                     out["enum"].append(d)
                     out["enum_value"].append(d)
@@ -148,6 +172,9 @@ def docstrings(files):
                         if isinstance(m, (ast.FunctionDef, ast.AsyncFunctionDef)) and m.name == "get_thing":
                             out["method"].append(ast.get_docstring(m, clean=False) or "")
                             out["request"].append(ast.get_docstring(m, clean=False) or "")     # "request (...): The request object. <comment>"
+                        if isinstance(m, (ast.FunctionDef, ast.AsyncFunctionDef)) and m.name in ("import_things", "list_things"):
+                            md = ast.get_docstring(m, clean=False) or ""       # the Returns: section carries the result / response comment
+                            out["lro_result" if m.name == "import_things" else "paged_response"].append(md[md.find("Returns:"):] if "Returns:" in md else "")
                         if isinstance(m, (ast.FunctionDef, ast.AsyncFunctionDef)) and m.name in STREAM_METHODS:
                             out["stream_request"].append(ast.get_docstring(m, clean=False) or "")
     return out
